@@ -38,6 +38,8 @@ type Check struct {
 	Stubs       []string
 	TCQuick     [2]int // thread-trace composition (N threads, M max slots); 0 = none
 	TCThorough  [2]int
+	TCInductN   int // inductive variant for 2..N threads
+	TCInductNThorough int
 	NV          []int // model-validation scenarios (VxHNV) run natively and in the interpreter
 }
 
